@@ -78,6 +78,27 @@ def hashable(k):
     return k
 
 
+def dict_key(I, d, k):
+    """the key object of dict d that equals k (deciding equality with symbolic numbers by branching), or k itself
+    when no existing key equals it.  Symbolic keys are stored as the Sym object (hashed by identity)."""
+    symk = isinstance(k, Sym)
+    if not symk:
+        k = hashable(k)
+        if k in d:
+            return k
+    for ek in list(d):
+        if ek is k:
+            return ek
+        if isinstance(ek, Sym) or symk:
+            if isinstance(ek, (Sym, int, Fraction)) and isinstance(k, (Sym, int, Fraction)) and not isinstance(ek, bool) and not isinstance(k, bool):
+                if (ek.kind if isinstance(ek, Sym) else "int") == "bool" or (k.kind if symk else "int") == "bool":
+                    continue
+                e = compare(I, "Eq", ek, k)
+                if e is True or (isinstance(e, Sym) and I.path.branch(e.t)):
+                    return ek
+    return k
+
+
 def describe(v):
     if isinstance(v, Sym):
         return str(v.t)
@@ -508,7 +529,7 @@ def _order(I, op, a, b):
 
 def contains(I, container, item):
     if isinstance(container, dict):
-        return hashable(item) in container
+        return dict_key(I, container, item) in container
     if isinstance(container, (list, tuple)):
         acc = False
         for x in container:
@@ -781,7 +802,7 @@ def getitem(I, o, k):
         except IndexError:
             raise PyExc("IndexError", ("list index out of range",))
     if isinstance(o, dict):
-        k = hashable(k)
+        k = dict_key(I, o, k)
         if k in o:
             return o[k]
         raise PyExc("KeyError", (k,))
@@ -815,7 +836,7 @@ def setitem(I, o, k, v):
             return
         raise Unsupported("list setitem with non-int index")
     if isinstance(o, dict):
-        o[hashable(k)] = v
+        o[dict_key(I, o, k)] = v
         return
     if isinstance(o, Tensor):
         tensor_setitem(I, o, k, v)
@@ -833,7 +854,7 @@ def setitem(I, o, k, v):
 
 def delitem(I, o, k):
     if isinstance(o, dict):
-        k = hashable(k)
+        k = dict_key(I, o, k)
         if k not in o:
             raise PyExc("KeyError", (k,))
         del o[k]
@@ -853,9 +874,9 @@ def builtin_getattr(I, o, name):
     if isinstance(o, dict):
         d = o
         if name == "get":
-            return Builtin("dict.get", lambda I_, a, k: d.get(hashable(a[0]), a[1] if len(a) > 1 else k.get("default")))
+            return Builtin("dict.get", lambda I_, a, k: d.get(dict_key(I_, d, a[0]), a[1] if len(a) > 1 else k.get("default")))
         if name == "setdefault":
-            return Builtin("dict.setdefault", lambda I_, a, k: d.setdefault(hashable(a[0]), a[1] if len(a) > 1 else None))
+            return Builtin("dict.setdefault", lambda I_, a, k: d.setdefault(dict_key(I_, d, a[0]), a[1] if len(a) > 1 else None))
         if name == "update":
             def upd(I_, a, k):
                 for src in a:
@@ -876,7 +897,7 @@ def builtin_getattr(I, o, name):
             return Builtin("dict.copy", lambda I_, a, k: dict(d))
         if name == "pop":
             def pop(I_, a, k):
-                key = hashable(a[0])
+                key = dict_key(I_, d, a[0])
                 if key in d:
                     return d.pop(key)
                 if len(a) > 1:
